@@ -9,7 +9,7 @@
 From Coq Require Import Reals List Bool Ring_theory Arith.
 Import ListNotations.
 Require Import NV.C09.Model NV.C09.ProofsK.
-Require Import NV.C28.Prelude NV.C28.Gen_Norm NV.C28.Model NV.C28.ProofsNorm NV.C28.ProofsVar NV.C28.ProofsReal.
+Require Import NV.C28.Prelude NV.C28.Gen_Norm NV.C28.Model NV.C28.ProofsNorm NV.C28.ProofsVar NV.C28.ProofsReal NV.C28.ProofsSlice.
 
 Definition is_ring (K : ring_ops) : Prop :=
   ring_theory (op_0 K) (op_1 K) (op_add K) (op_mul K) (op_sub K) (op_opp K) eq.
@@ -125,6 +125,46 @@ Theorem C28_variance_matern_renorm :
   bins_ok m N pd A ->
   expected_variance RK t N (/ INR N)%R (/ V)%R (fun j => nth (pd j) A 0%R) = (scl * scl)%R.
 Proof. exact matern_expected_variance. Qed.
+
+(* ---- slice and average fluctuations --------------------------------------------------------------- *)
+
+(* any averaging operator over part of the pixel index that maps each row of the transform matrix to
+   itself (modes with zs j) or to zero (the others): the expected variance within the slices it
+   averages over, E (1/N) sum_x (f_x - (avg f)_x)^2, is the power of the modes it annihilates *)
+Theorem C28_slice_variance :
+  forall K, is_ring K -> forall N t, transform_ok K N t ->
+  forall invN invV, op_mul K (natR K N) invN = op_1 K ->
+  forall coef avg zs, averaging K avg -> selects K N t avg zs ->
+  slice_variance K N t invN invV coef avg
+  = op_mul K (rsq K invV) (rsum K N (fun j => if negb (zs j) then rsq K (coef j) else op_0 K)).
+Proof. exact slice_variance_eq. Qed.
+
+(* and the expected variance of the averaged field about the global mean is the power of the modes it
+   keeps, the zero mode apart *)
+Theorem C28_average_variance :
+  forall K, is_ring K -> forall N t, transform_ok K N t -> 0 < N ->
+  forall invN invV, op_mul K (natR K N) invN = op_1 K ->
+  forall coef avg zs, averaging K avg -> selects K N t avg zs -> zs 0 = true ->
+  average_variance K N t invN invV coef avg
+  = op_mul K (rsq K invV) (rsum K N (fun j => if zs j && negb (j =? 0) then rsq K (coef j) else op_0 K)).
+Proof. exact average_variance_eq. Qed.
+
+(* two (groups of) sub-domains, field built as in finalize (Kronecker transform, outer amplitude, azm,
+   1/V_1 1/V_2), Field.mean over one sub-domain as the averaging operator: the variance within slices
+   along sub-domain s is the coded slice_fluctuation(s)^2 and the variance of the average over the other
+   sub-domain is the coded average_fluctuation(s)^2 *)
+Theorem C28_slice_average_two :
+  forall K, is_ring K ->
+  forall n1 n2 t1 t2 invn1 invn2 invN a1 a2 azm iazm V1 V2 iV1 iV2 f1 f2,
+  two_spaces_ok K n1 n2 t1 t2 invn1 invn2 invN a1 a2 azm iazm V1 V2 iV1 iV2 f1 f2 ->
+  let t := t12 K n2 t1 t2 in
+  let coef := coef12 K n2 a1 a2 azm in
+  let invV := op_mul K iV1 iV2 in
+  slice_variance K (n1 * n2) t invN invV coef (mean1 K n1 n2 invn1) = slice_sq K azm iazm [f1; f2] 0 /\
+  slice_variance K (n1 * n2) t invN invV coef (mean2 K n2 invn2) = slice_sq K azm iazm [f1; f2] 1 /\
+  average_variance K (n1 * n2) t invN invV coef (mean2 K n2 invn2) = average_sq K [f1; f2] 0 /\
+  average_variance K (n1 * n2) t invN invV coef (mean1 K n1 n2 invn1) = average_sq K [f1; f2] 1.
+Proof. exact slice_average_two. Qed.
 
 (* non-vacuity of the normalisation hypotheses *)
 Example C28_hyps_satisfiable :
